@@ -120,7 +120,7 @@ class Engine:
         self.solver = None
         self.reset()
         self.while_bound = 64
-        self.for_bound = 400
+        self.for_bound = 1000000
 
     def reset(self):
         if self.solver is not None:
